@@ -95,7 +95,7 @@ def run(prop, tier, seed, plan, replay_dir=None):
                                    "strconv.Quote is taken as the uninterpreted quoting function q in EventString"],
                       wall_s=round(time.time() - t0, 1), violations=len(viols))
             os.makedirs(os.path.join(HERE, "evidence"), exist_ok=True)
-            json.dump(ev, open(os.path.join(HERE, "evidence", prop + ".json"), "w"), indent=1)
+            json.dump(ev, open(engines.evidence_path(prop), "w"), indent=1)
         log("%s %s seed=%d: %d evaluations, %d tables with mismatches, %.1fs" % (prop, tier, seed, n, len(viols), time.time() - t0))
         return rc
     finally:
